@@ -50,6 +50,9 @@ void start_tasks(int n) {
         t->stack_lo = (u8*)mmap(nullptr, t->stack_size, PROT_READ | PROT_WRITE, MAP_PRIVATE | MAP_ANONYMOUS, -1, 0);
         if (t->stack_lo == MAP_FAILED) { perror("mmap"); exit(3); }
         memset(t->stack_lo, STACK_PATTERN, t->stack_size);
+        t->seam_stack_size = 1 << 19;
+        t->seam_stack = (u8*)mmap(nullptr, t->seam_stack_size, PROT_READ | PROT_WRITE, MAP_PRIVATE | MAP_ANONYMOUS, -1, 0);
+        if (t->seam_stack == MAP_FAILED) { perror("mmap"); exit(3); }
         sem_init(&t->go, 0, 0);
         t->state = TS_IDLE; t->preemptible = false; t->countdown = 0; t->cur = nullptr; t->entry_sp = nullptr; t->seam_req = nullptr;
         t->edges_call = t->edges_total = 0; t->last_guard = 0;
@@ -63,11 +66,13 @@ void start_tasks(int n) {
 }
 
 // Resume task t and wait until it parks again; seam requests are served here, on the coordinator's stack.
+extern "C" void* g_seam_sp;
 int resume(Task* t) {
     for (;;) {
+        g_seam_sp = t->seam_stack + t->seam_stack_size - 64;     // dependency calls of this task run on its side stack
         sem_post(&t->go);
         while (sem_wait(&coord_sem) != 0 && errno == EINTR) {}
-        if (t->state == TS_SEAMREQ) { (*t->seam_req)(); continue; }
+        if (t->state == TS_SEAMREQ) { tls_task = t; (*t->seam_req)(); tls_task = nullptr; continue; }   // body runs here, on behalf of t
         return t->state;
     }
 }
@@ -122,7 +127,7 @@ static SeamEvent& new_event(OpRec* rec, int kind, int gen) {
     SeamEvent& e = rec->ev.back();
     e.kind = kind; e.gen = gen;
     if (gen >= 0) e.stale = (gen != E.cur_gen) || !optional_present(kind);
-    E.stats.add(std::string("seam_") + EVN[kind]);
+    E.seam_count[kind]++;
     return e;
 }
 
@@ -256,6 +261,19 @@ static size_t do_norm(int gen, bool compose, const char* str, char* norm) {
     size_t ret = 0;
     on_seam([&] {
         OpRec* rec = cur_rec();
+        if (E.in_inject && gen == E.cur_gen) {
+            // the self-test of an assertion-enabled build normalises every (public) word: count, do not log
+            static std::unordered_map<std::string, std::string> cache[2];     // pure function of its input
+            auto& ch = cache[compose ? 1 : 0];
+            auto it = ch.find(str);
+            if (it == ch.end()) { if (ch.size() > 100000) ch.clear(); it = ch.emplace(str, model::bound(compose ? model::nfc_raw(str) : model::nfkd_raw(str))).first; }
+            const std::string& out = it->second;
+            memcpy(norm, out.c_str(), out.size() + 1);
+            ret = out.size();
+            rec->selftest_norms++;
+            E.seam_count[compose ? EV_NFC : EV_NFKD]++;
+            return;
+        }
         SeamEvent& e = new_event(rec, compose ? EV_NFC : EV_NFKD, gen);
         std::string in(str);
         std::string out = model::bound(compose ? model::nfc_raw(in) : model::nfkd_raw(in));
@@ -263,8 +281,6 @@ static size_t do_norm(int gen, bool compose, const char* str, char* norm) {
         e.out.assign(out.begin(), out.end());
         memcpy(norm, out.c_str(), out.size() + 1);
         ret = out.size();
-        // inputs of the self-test are public word-list data: keep the log small
-        if (E.in_inject) { e.a.clear(); e.out.clear(); }
     });
     return ret;
 }
@@ -307,12 +323,55 @@ template <int G> struct Gen {
         d->time = (opt & 1) ? &time : nullptr; d->alloc = (opt & 2) ? &alloc : nullptr; d->free = (opt & 4) ? &free : nullptr;
     }
 };
+
+#ifndef POLYSIM_ASAN
+// In uninstrumented builds the dependency entry points are assembly stubs that switch to a per-task
+// side stack before any simulator code runs: a dependency call then costs the caller's stack exactly
+// one return address, like a small real memzero would, so what the library leaves behind on its own
+// stack is neither overwritten nor added to by the simulator (needed by the stack-residue oracle).
+extern "C" u64 seam_entry_c(u64 code, u64* a) {
+    int kind = (int)(code >> 4), gen = (int)(code & 15);
+    switch (kind) {
+    case 0: do_rand(gen, (void*)a[0], (size_t)a[1]); return 0;
+    case 1: do_kdf(gen, (const u8*)a[0], (size_t)a[1], (const u8*)a[2], (size_t)a[3], a[4], (u8*)a[5], (size_t)a[6]); return 0;
+    case 2: do_memzero(gen, (void*)a[0], (size_t)a[1]); return 0;
+    case 3: return do_norm(gen, true, (const char*)a[0], (char*)a[1]);
+    case 4: return do_norm(gen, false, (const char*)a[0], (char*)a[1]);
+    case 5: return do_time(gen, false);
+    case 6: return (u64)(uintptr_t)do_alloc(gen, (size_t)a[0], false);
+    default: do_free(gen, (void*)a[0], false); return 0;
+    }
+}
+#define STUB(name, code) \
+    asm(".text\n.globl " #name "\n.type " #name ",@function\n" #name ":\n" \
+        "movq %rsp, %r10\n movq g_seam_sp(%rip), %r11\n movq %r11, %rsp\n pushq %r10\n pushq %r10\n subq $64, %rsp\n" \
+        "movq %rdi, 0(%rsp)\n movq %rsi, 8(%rsp)\n movq %rdx, 16(%rsp)\n movq %rcx, 24(%rsp)\n movq %r8, 32(%rsp)\n movq %r9, 40(%rsp)\n" \
+        "movq 8(%r10), %rax\n movq %rax, 48(%rsp)\n movq $" #code ", %rdi\n movq %rsp, %rsi\n call seam_entry_c\n" \
+        "addq $64, %rsp\n popq %r10\n popq %r10\n movq %r10, %rsp\n ret\n.size " #name ", .-" #name "\n"); \
+    extern "C" void name();
+#define STUBS(k, kc) STUB(stub_##k##_0, kc##0) STUB(stub_##k##_1, kc##1) STUB(stub_##k##_2, kc##2)
+STUBS(rand, 0x0) STUBS(kdf, 0x1) STUBS(memzero, 0x2) STUBS(nfc, 0x3) STUBS(nfkd, 0x4) STUBS(time, 0x5) STUBS(alloc, 0x6) STUBS(free, 0x7)
+typedef void (*stubfn)();
+static stubfn STUBTAB[8][3] = {{stub_rand_0, stub_rand_1, stub_rand_2}, {stub_kdf_0, stub_kdf_1, stub_kdf_2}, {stub_memzero_0, stub_memzero_1, stub_memzero_2},
+    {stub_nfc_0, stub_nfc_1, stub_nfc_2}, {stub_nfkd_0, stub_nfkd_1, stub_nfkd_2}, {stub_time_0, stub_time_1, stub_time_2},
+    {stub_alloc_0, stub_alloc_1, stub_alloc_2}, {stub_free_0, stub_free_1, stub_free_2}};
+#endif
+extern "C" { void* g_seam_sp = nullptr; }
+
 void make_deps(polyseed_dependency* d, int gen, unsigned opt) {
+#ifndef POLYSIM_ASAN
+    int g = gen % NGEN;
+    d->randbytes = (polyseed_randbytes*)STUBTAB[0][g]; d->pbkdf2_sha256 = (polyseed_pbkdf2*)STUBTAB[1][g]; d->memzero = (polyseed_memzero*)STUBTAB[2][g];
+    d->u8_nfc = (polyseed_transform*)STUBTAB[3][g]; d->u8_nfkd = (polyseed_transform*)STUBTAB[4][g];
+    d->time = (opt & 1) ? (polyseed_time*)STUBTAB[5][g] : nullptr; d->alloc = (opt & 2) ? (polyseed_malloc*)STUBTAB[6][g] : nullptr;
+    d->free = (opt & 4) ? (polyseed_mfree*)STUBTAB[7][g] : nullptr;
+#else
     switch (gen % NGEN) {
     case 0: Gen<0>::fillin(d, opt); break;
     case 1: Gen<1>::fillin(d, opt); break;
     default: Gen<2>::fillin(d, opt); break;
     }
+#endif
 }
 
 void reset_run() {
@@ -326,7 +385,7 @@ void reset_run() {
 
 // ------------------------------------------------------------------ access monitor / edges
 u32 n_guards = 0;
-std::vector<u8> guard_hit;
+u8 guard_hit[GUARD_MAX];
 bool have_edges = false, have_monitor = false;
 
 static void edge_tick(Task* t) {
@@ -424,6 +483,7 @@ void* sim_memcpy(void* d, const void* s, size_t n) { mem_range(s, n, false); mem
 void* sim_memmove(void* d, const void* s, size_t n) { mem_range(s, n, false); mem_range(d, n, true); return memmove(d, s, n); }
 void* sim_memset(void* d, int c, size_t n) { mem_range(d, n, true); return memset(d, c, n); }
 int sim_memcmp(const void* a, const void* b, size_t n) { mem_range(a, n, false); mem_range(b, n, false); return memcmp(a, b, n); }
+int sim_bcmp(const void* a, const void* b, size_t n) { mem_range(a, n, false); mem_range(b, n, false); return memcmp(a, b, n); }
 int sim_strcmp(const char* a, const char* b) { mem_range(a, strlen(a) + 1, false); mem_range(b, strlen(b) + 1, false); return strcmp(a, b); }
 size_t sim_strlen(const char* a) { size_t n = strlen(a); mem_range(a, n + 1, false); return n; }
 char* sim_strcpy(char* d, const char* s) { size_t n = strlen(s) + 1; mem_range(s, n, false); mem_range(d, n, true); return strcpy(d, s); }
@@ -441,14 +501,13 @@ void* sim_asan_memset(void* d, int c, size_t n) { mem_range(d, n, true); return 
 void __sanitizer_cov_trace_pc_guard_init(u32* start, u32* stop) {
     if (start == stop || *start) return;
     for (u32* x = start; x < stop; ++x) *x = ++n_guards;
-    guard_hit.assign(n_guards + 1, 0);
     have_edges = true;
 }
 void __sanitizer_cov_trace_pc_guard(u32* guard) {
     Task* t = tls_task;
     if (!t) return;
     u32 g = *guard;
-    if (g < guard_hit.size()) guard_hit[g] = 1;
+    if (g < GUARD_MAX) guard_hit[g] = 1;
     t->last_guard = g;
     if (t->preemptible) edge_tick(t);
     else if (t->cur) { t->edges_call++; if (t->edges_call > STEP_BUDGET) { task_yield(t, TS_BUDGET); for (;;) pause(); } }
